@@ -50,7 +50,38 @@ def _self_normalising_ops(prog, T):
                 from_own_type = True
     if not from_own_type:
         return set()
-    return {op for op, instrs in gtab.items() if instrs and instrs[-1] == "Cast" and instrs[0] == op}
+    out = set()
+    body = gfn.body
+    sws = [s for s in mir.enum_switches(prog, body) if s.adt == ot.OP]
+    sw = max(sws, key=lambda s: len(s.arms))
+    # the only test that may stand between the operator's instruction and its Cast: `is the static type a
+    # built-in type` (a switch over ExpressionType, followed on its BuiltIn arm only)
+    tsw = {s.bb: s for s in mir.enum_switches(prog, body) if s.adt.endswith("::ExpressionType")}
+    for op, instrs in gtab.items():
+        if not (instrs and instrs[-1] == "Cast" and instrs[0] == op):
+            continue
+        region = mir.arm_region(body, sw.bb, sw.arms[op])
+        pops = [b for b in region if b in evs and evs[b].kind == "push" and evs[b].instr == op]
+        pcs = {b for b in region if b in evs and evs[b].kind == "push" and evs[b].instr == "Cast"}
+        escaped = False
+        seen = set()
+        st = list(pops)
+        while st and not escaped:
+            b = st.pop()
+            if b in seen or b in pcs or body.is_cleanup(b):
+                continue
+            seen.add(b)
+            if b not in region:
+                escaped = True
+                break
+            if b in tsw:
+                tgt = tsw[b].arms.get("BuiltIn")
+                st.extend([tgt] if tgt is not None else body.succ(b))
+                continue
+            st.extend(x for x in body.succ(b) if not body.is_cleanup(x))
+        if not escaped:
+            out.add(op)
+    return out
 
 
 def r1_static_vs_dynamic(ctx, T, rule="C06.R1"):
